@@ -28,7 +28,7 @@ CFG = dict(
         assumptions=["governance authority = x/gov module account in every keeper (checked per type: the same body with the "
                      "field naming governance passes the guard)",
                      "transactions carry zero fee; one message per transaction"],
-        explanation="Table half: Gen/Handlers.lean is regenerated from the Go source on every run (88 msgServer methods at this commit); "
+        explanation="Table half: Gen/Handlers.lean is regenerated from the Go source on every run (89 MsgServer methods at this commit, one per message type the app registers); "
                     "C17.all_guarded / guard_compares_signer / expected_inventory / expected_other_gated are decided over it, and "
                     "guard_blocks / deliver_blocks / table_blocks / owner_blocks hold for every body. Behavioural half: exhaustive "
                     "over the message types registered with the running app (coverage: exhaustive, not sampled): every "
